@@ -679,52 +679,76 @@ Proof.
   - cbn [forallb] in W. apply andb_true_iff in W. tauto.
 Qed.
 
-(** the head of what follows a variable in the emitted literal is not an identifier character *)
+Lemma dart_args_length : forall g T, List.length (dart_args g T) = List.length (vars_of g).
+Proof.
+  induction g as [|[c|n] g IH]; intros T; cbn [dart_args vars_of List.length]; auto.
+Qed.
+
+Lemma dart_braced_run : forall n T en, forallb is_word n = true ->
+  dart_run (dart_braced n ++ T) DN en =
+  match lookup n en, dart_run T DN en with Some v, Some r => Some (v ++ r) | _, _ => None end.
+Proof.
+  intros n T en Hn. unfold dart_braced.
+  change ((36 :: 123 :: n ++ [125]) ++ T) with (36 :: 123 :: ((n ++ [125]) ++ T)).
+  rewrite <- app_assoc. cbn [app].
+  change (dart_run (36 :: 123 :: n ++ 125 :: T) DN en) with (dart_run (n ++ 125 :: T) (DB []) en).
+  rewrite dart_brace by exact Hn. reflexivity.
+Qed.
+
+(** each variable is emitted as $name when what follows in the literal is not an identifier
+    character, as ${name} otherwise: either way it evaluates to the variable's value *)
 Lemma dart_template : forall g vals T en,
   forallb dlit_ok (lits_of g) = true ->
   forallb ident_ok (vars_of g) = true ->
   Forall (fun n => forallb is_word n = true) (vars_of g) ->
-  dart_follow g T = true ->
   lookups (vars_of g) en = Some vals ->
-  dart_run (subst_pos g (map dollar (vars_of g)) ++ T) DN en
+  dart_run (subst_pos g (dart_args g T) ++ T) DN en
   = option_map (app (subst_pos g vals)) (dart_run T DN en).
 Proof.
-  induction g as [|[c|n] g IH]; intros vals T en Hl Hi Hw Hf Hlk; cbn [subst_pos vars_of lits_of map] in *.
+  induction g as [|[c|n] g IH]; intros vals T en Hl Hi Hw Hlk; cbn [subst_pos vars_of lits_of dart_args] in *.
   - cbn [app]. rewrite option_map_app_nil. reflexivity.
   - cbn [forallb] in Hl. apply andb_true_iff in Hl. destruct Hl as [L1 L2].
-    cbn [dart_follow] in Hf.
-    change ((c :: subst_pos g (map dollar (vars_of g))) ++ T) with ([c] ++ (subst_pos g (map dollar (vars_of g)) ++ T)).
+    change ((c :: subst_pos g (dart_args g T)) ++ T) with ([c] ++ (subst_pos g (dart_args g T) ++ T)).
     rewrite dart_lit by (cbn; rewrite L1; reflexivity).
     rewrite (IH vals T en) by assumption. apply option_map_app_cons.
   - cbn [forallb] in Hi. apply andb_true_iff in Hi. destruct Hi as [I1 I2].
     inversion Hw as [|? ? W1 W2]; subst.
-    cbn [dart_follow] in Hf. apply andb_true_iff in Hf. destruct Hf as [F1 F2].
     cbn [lookups] in Hlk. destruct (lookup n en) as [v|] eqn:Ln; [|discriminate].
     destruct (lookups (vars_of g) en) as [vs|] eqn:Lv; [|discriminate].
     inversion Hlk; subst vals. clear Hlk.
-    destruct (ident_ok_shape n I1 W1) as [c0 [n' [-> [S0 Wn']]]].
-    unfold dollar at 1. rewrite <- app_assoc.
-    change ((36 :: c0 :: n') ++ subst_pos g (map dollar (vars_of g)) ++ T)
-      with (36 :: (c0 :: n') ++ (subst_pos g (map dollar (vars_of g)) ++ T)).
-    rewrite dart_var; [|exact S0|exact Wn'|].
-    + rewrite Ln. rewrite (IH vs T en) by assumption.
+    set (nw := match g with
+               | Lit c :: _ => is_word c
+               | Var _ :: _ => false
+               | [] => match T with c :: _ => is_word c | [] => false end
+               end).
+    destruct nw eqn:Enw.
+    + rewrite <- app_assoc. rewrite dart_braced_run by exact W1.
+      rewrite Ln. rewrite (IH vs T en) by assumption.
       destruct (dart_run T DN en); cbn; [rewrite app_assoc|]; reflexivity.
-    + destruct g as [|[c|m] g']; cbn [subst_pos vars_of map app tail_ok].
-      * destruct T; [exact I|]. apply negb_true_iff. exact F1.
-      * apply negb_true_iff. exact F1.
-      * reflexivity.
+    + destruct (ident_ok_shape n I1 W1) as [c0 [n' [-> [S0 Wn']]]].
+      unfold dollar. rewrite <- app_assoc.
+      change ((36 :: c0 :: n') ++ subst_pos g (dart_args g T) ++ T)
+        with (36 :: (c0 :: n') ++ (subst_pos g (dart_args g T) ++ T)).
+      rewrite dart_var; [|exact S0|exact Wn'|].
+      * rewrite Ln. rewrite (IH vs T en) by assumption.
+        destruct (dart_run T DN en); cbn; [rewrite app_assoc|]; reflexivity.
+      * subst nw. destruct g as [|[c|m] g']; cbn [subst_pos vars_of dart_args app tail_ok].
+        -- destruct T; [exact I|]. exact Enw.
+        -- exact Enw.
+        -- destruct (match g' with Lit c :: _ => is_word c | Var _ :: _ => false
+                                 | [] => match T with c :: _ => is_word c | [] => false end end);
+             reflexivity.
 Qed.
 
 Lemma dart_prefix_value : forall delim pfx vals en,
   forallb ident_ok (vars_of (segments pfx)) = true ->
   lit_ok 39 pfx = true -> lit_ok 39 delim = true -> no_char 36 pfx = true -> no_char 36 delim = true ->
   (null (vars_of (segments pfx)) || (no_char 37 pfx && no_char 37 delim)) = true ->
-  dart_follow (segments pfx) delim = true ->
   lookups (vars_of (segments pfx)) en = Some vals ->
   exists praw, dart_prefix_raw delim pfx (segments pfx) = Some praw /\
                dart_run praw DN en = Some (prefix_value delim pfx vals).
 Proof.
-  intros delim pfx vals en Hi Lp Ld Dp Dd Hpc Hf Hlk.
+  intros delim pfx vals en Hi Lp Ld Dp Dd Hpc Hlk.
   assert (DL : forall s, lit_ok 39 s = true -> no_char 36 s = true -> forallb dlit_ok s = true).
   { intros s A B. unfold lit_ok, no_char in *. rewrite forallb_forall in *. intros x Hx. unfold dlit_ok.
     rewrite (A x Hx), (B x Hx). reflexivity. }
@@ -732,18 +756,18 @@ Proof.
   { rewrite <- (app_nil_r delim) at 1. rewrite dart_lit by (apply DL; assumption). cbn. rewrite app_nil_r. reflexivity. }
   unfold dart_prefix_raw, prefix_value. destruct pfx as [|c p]; [exists []; split; reflexivity|].
   set (pfx := c :: p) in *. set (g := segments pfx) in *.
-  assert (R : dart_run (subst_pos g (map dollar (vars_of g)) ++ delim) DN en = Some (subst_pos g vals ++ delim)).
+  assert (R : dart_run (subst_pos g (dart_args g delim) ++ delim) DN en = Some (subst_pos g vals ++ delim)).
   { rewrite (dart_template g vals delim en); try assumption.
     - rewrite Rd. reflexivity.
     - apply forallb_lits_segments. apply DL; assumption.
     - apply segments_vars_word. }
   destruct (vars_of g) as [|v vs] eqn:V.
   - exists (template pct_s g ++ delim). split; [reflexivity|].
-    rewrite (template_novars _ _ V). cbn [map] in R. rewrite (subst_novars g [] V) in R. exact R.
+    rewrite (template_novars _ _ V). rewrite (subst_novars g (dart_args g delim) V) in R. exact R.
   - cbn [null orb] in Hpc. apply andb_true_iff in Hpc. destruct Hpc as [P37 D37].
-    exists (subst_pos g (map dollar (v :: vs)) ++ delim). split; [|exact R].
-    rewrite <- V. apply (F_prefix go_fmt go_fmt_cons go_fmt_hole go_fmt_nil); try assumption.
-    fold g. rewrite map_length. reflexivity.
+    exists (subst_pos g (dart_args g delim) ++ delim). split; [|exact R].
+    apply (F_prefix go_fmt go_fmt_cons go_fmt_hole go_fmt_nil); try assumption.
+    fold g. rewrite dart_args_length, V. reflexivity.
 Qed.
 
 Lemma dart_topic_lit : forall t P delim op en,
@@ -779,7 +803,7 @@ Proof.
   pose proof (parse_prefix_segments _ _ Hp) as ->.
   unfold vars_safe in Hvs. repeat rewrite andb_true_iff in Hvs. destruct Hvs as [[Hpar Hvs0] [[Hvs1 Hvs2] Hvs3]].
   unfold in_domain in Hdom. cbv zeta in Hdom. repeat rewrite andb_true_iff in Hdom.
-  destruct Hdom as [[Nsc Nop] [[[[[Lp Ld] Dp] Dd] Nx] Fol]].
+  destruct Hdom as [[Nsc Nop] [[[[Lp Ld] Dp] Dd] Nx]].
   apply negb_mem_false in Hvs0, Hvs1, Hvs2, Hvs3.
   pose proof (name_ok_word _ Nsc) as Wsc. pose proof (name_ok_word _ Nop) as Wop.
   pose proof (title_word _ Wsc) as Wt.
@@ -788,7 +812,7 @@ Proof.
   set (en0 := combine vars vals ++ [(n_delimiter, delim)]).
   assert (Hlk : lookups vars en0 = Some vals) by (apply lookups_combine; assumption).
   assert (Hlk' : lookups vars ((n_op, op) :: en0) = Some vals) by (rewrite lookups_skip by exact Hvs0; exact Hlk).
-  destruct (dart_prefix_value delim pfx vals ((n_op, op) :: en0) Hid Lp Ld Dp Dd Nx Fol Hlk') as [praw [Eraw Rraw]].
+  destruct (dart_prefix_value delim pfx vals ((n_op, op) :: en0) Hid Lp Ld Dp Dd Nx Hlk') as [praw [Eraw Rraw]].
   assert (DLd : forallb dlit_ok delim = true).
   { unfold lit_ok, no_char in *. rewrite forallb_forall in *. intros x Hx. unfold dlit_ok.
     rewrite (Ld x Hx), (Dd x Hx). reflexivity. }
@@ -915,8 +939,9 @@ Lemma metachar_witnesses :
   (* Dart: '$' in a prefix interpolates *)
   /\ topic fixed Dart Pub (lit ".") (lit "Events") (lit "created") (lit "a$user.{user}") [lit "bob"]
     = Some (lit "abob.bob.Events.created")
-  (* Dart: a delimiter that continues the identifier after a trailing variable ($user_) *)
-  /\ topic fixed Dart Pub (lit "_") (lit "Events") (lit "created") (lit "foo.{user}") [lit "bob"] = None
+  (* Dart: a delimiter that continues the identifier after a trailing variable: ${user}_ *)
+  /\ topic fixed Dart Pub (lit "_") (lit "Events") (lit "created") (lit "foo.{user}") [lit "bob"]
+    = Some (lit "foo.bob_Events_created")
   /\ topic fixed Go Pub (lit "_") (lit "Events") (lit "created") (lit "foo.{user}") [lit "bob"]
     = Some (lit "foo.bob_Events_created")
   (* Python: a brace token that is not a variable, next to a variable, breaks str.format *)
@@ -1020,17 +1045,52 @@ Proof.
     rewrite (run_body_decl_indep _ _ _ _ _ _ _ E1 E2) in Ha. congruence.
 Qed.
 
-(** known finding (Dart): a delimiter that starts with an identifier character directly after a
-    trailing prefix variable is swallowed by Dart's $name interpolation *)
-Lemma dart_delim_after_variable :
+(** was known finding C08-dart-delim-after-variable (repaired): a delimiter that starts with an
+    identifier character directly after a trailing prefix variable; Dart now emits ${user}_ and
+    uses the specified topic like Go (and Java, Python) *)
+Lemma dart_delim_after_variable_ok :
   exists delim sc op pfx vals,
     in_domain Go delim sc op pfx = true /\ in_domain Java delim sc op pfx = true /\
-    in_domain Py delim sc op pfx = true /\
+    in_domain Py delim sc op pfx = true /\ in_domain Dart delim sc op pfx = true /\
+    dart_follow (segments pfx) delim = false /\
     vars_safe Dart Pub op (vars_of (segments pfx)) = true /\
     topic fixed Go Pub delim sc op pfx vals = Some (spec_topic delim sc op pfx vals) /\
-    topic fixed Dart Pub delim sc op pfx vals = None /\
-    topic fixed Dart Sub delim sc op pfx vals = None.
+    topic fixed Dart Pub delim sc op pfx vals = Some (spec_topic delim sc op pfx vals) /\
+    topic fixed Dart Sub delim sc op pfx vals = Some (spec_topic delim sc op pfx vals).
 Proof.
   exists (lit "_"), (lit "Events"), (lit "created"), (lit "foo.{user}"), [lit "bob"].
   repeat split; vm_compute; reflexivity.
+Qed.
+
+(** the prefix statement as emitted before the repair ([dart_prefix_raw_pinned]: always $name) for
+    the same input reads 'foo.$user_': with user bound (and user_ not) it has no value *)
+Lemma dart_delim_after_variable_pinned :
+  exists delim pfx praw v,
+    dart_prefix_raw_pinned delim pfx (segments pfx) = Some praw /\
+    praw = lit "foo.$user_" /\
+    dart_run praw DN [(lit "user", v)] = None /\
+    dart_prefix_raw delim pfx (segments pfx) = Some (lit "foo.${user}_") /\
+    dart_run (lit "foo.${user}_") DN [(lit "user", v)] = Some (lit "foo." ++ v ++ lit "_").
+Proof.
+  exists (lit "_"), (lit "foo.{user}"), (lit "foo.$user_"), (lit "bob").
+  repeat split; vm_compute; reflexivity.
+Qed.
+
+(** where no variable is followed by an identifier character ([dart_follow]) the emitted prefix
+    statement is the one the generator emitted before the repair *)
+Lemma dart_args_follow : forall g T, dart_follow g T = true -> dart_args g T = map dollar (vars_of g).
+Proof.
+  induction g as [|[c|n] g IH]; intros T H; cbn [dart_follow dart_args vars_of map] in *; auto.
+  apply andb_true_iff in H. destruct H as [H1 H2]. rewrite (IH T H2). f_equal.
+  destruct g as [|[c|m] g']; [destruct T as [|c T']| |]; try reflexivity;
+    apply negb_true_iff in H1; rewrite H1; reflexivity.
+Qed.
+
+Lemma dart_prefix_raw_unchanged : forall delim pfx,
+  dart_follow (segments pfx) delim = true ->
+  dart_prefix_raw delim pfx (segments pfx) = dart_prefix_raw_pinned delim pfx (segments pfx).
+Proof.
+  intros delim pfx H. unfold dart_prefix_raw, dart_prefix_raw_pinned.
+  destruct pfx as [|c p]; [reflexivity|]. rewrite (dart_args_follow _ _ H).
+  destruct (vars_of (segments (c :: p))); reflexivity.
 Qed.
